@@ -8,9 +8,13 @@
       executable shape of [reads_from_writes]);
     - CGlobals: the package-level variable scan re-done by the harness + the detector's verdict
       for the concurrent Engine.Execute workload: [shares_nothing] and no race observed;
-    - CEngine: verdicts of concurrent validation vs. sequential validation of the same jobs. *)
+    - CEngine: verdicts of concurrent validation vs. sequential validation of the same jobs;
+    - CReadOnly: the read-only-memory probe: [programs] executions of the engine with every script it is handed
+      stored in pages the process may only read, [faults] of which wrote into such a script (undone or not): the
+      confinement hypothesis "a validation only READS the scripts it is handed" (model/SharedScript.v: several
+      transactions may name one script object), observed directly and without any schedule ([read_only_ok]). *)
 From Coq Require Import String List NArith Bool.
-From GoBT Require Import model.Locks spec.RaceSpec corr.Corr.
+From GoBT Require Import model.Locks spec.RaceSpec model.SharedScript corr.Corr.
 Import ListNotations.
 Local Open Scope N_scope.
 
@@ -18,7 +22,8 @@ Inductive case :=
 | CTable (tbl : rawtable) (race_seen : bool)
 | CHistory (init stored reads : list (string * N))
 | CGlobals (gl : list rawglobal) (engine_fields : list string) (fresh : list (string * bool)) (race_seen : bool)
-| CEngine (concurrent sequential : list bool).
+| CEngine (concurrent sequential : list bool)
+| CReadOnly (programs faults : N).
 
 Fixpoint bools_eqb (a b : list bool) : bool :=
   match a, b with
@@ -33,6 +38,7 @@ Definition check (c : case) : bool :=
   | CHistory init stored reads => observed_ok String.eqb N.eqb init stored reads
   | CGlobals gl ef fr race => shares_nothing gl ef fr && negb race
   | CEngine conc seq => bools_eqb conc seq
+  | CReadOnly programs faults => read_only_ok programs faults
   end.
 
 Definition mismatches := mismatches_with check.
